@@ -21,20 +21,44 @@ type replyResult struct {
 // close(ch) is intentionally absent everywhere: this makes the F5
 // "send on closed channel" panic class structurally unreachable.
 type replyRegistry struct {
-	m *xsync.MapOf[[4]byte, chan replyResult]
+	m *xsync.MapOf[[4]byte, replyWaiter]
+}
+
+// waiterKind tags a pending transaction with the protocol layer it belongs to, so that a
+// message of the OTHER layer that merely happens to carry the same System Bytes is a miss, not
+// this transaction's reply: a control response (Select/Deselect/Linktest.rsp) must never complete
+// a data transaction, and a data secondary must never complete a control transaction.
+type waiterKind uint8
+
+const (
+	waiterAny     waiterKind = iota // matches every reply kind (register / route without a kind)
+	waiterData                      // a W-bit data transaction: completed by a data secondary or a Reject.req
+	waiterControl                   // a control transaction: completed by a control response or a Reject.req
+)
+
+// replyWaiter is one pending-reply entry: the sender-owned channel plus the transaction kind.
+type replyWaiter struct {
+	ch   chan replyResult
+	kind waiterKind
 }
 
 // newReplyRegistry returns an initialised replyRegistry ready for use.
 func newReplyRegistry() replyRegistry {
-	return replyRegistry{m: xsync.NewMapOf[[4]byte, chan replyResult]()}
+	return replyRegistry{m: xsync.NewMapOf[[4]byte, replyWaiter]()}
 }
 
 // register allocates a buffered reply channel for key, stores it, and returns
 // it to the sender.  The caller is responsible for calling deregister (via
 // defer) when the send operation completes or is abandoned.
 func (r replyRegistry) register(key [4]byte) chan replyResult {
+	return r.registerKind(key, waiterAny)
+}
+
+// registerKind is register for a transaction of a known kind (data or control); routeKind only
+// delivers a reply of the matching kind to it.
+func (r replyRegistry) registerKind(key [4]byte, kind waiterKind) chan replyResult {
 	ch := make(chan replyResult, 1)
-	r.m.Store(key, ch)
+	r.m.Store(key, replyWaiter{ch: ch, kind: kind})
 
 	return ch
 }
@@ -50,13 +74,23 @@ func (r replyRegistry) deregister(key [4]byte) {
 // On hit, if the channel is already full (a duplicate reply raced in) the
 // result is silently discarded via the default branch — no block, no panic.
 func (r replyRegistry) route(key [4]byte, res replyResult) bool {
-	ch, ok := r.m.Load(key)
+	return r.routeKind(key, res, waiterAny)
+}
+
+// routeKind is route for a reply of a known kind. A waiter registered for the other kind is a
+// MISS (false): the reply is not that transaction's reply, so the caller handles it as unsolicited.
+func (r replyRegistry) routeKind(key [4]byte, res replyResult, kind waiterKind) bool {
+	w, ok := r.m.Load(key)
 	if !ok {
 		return false
 	}
 
+	if kind != waiterAny && w.kind != waiterAny && w.kind != kind {
+		return false
+	}
+
 	select {
-	case ch <- res:
+	case w.ch <- res:
 	default:
 	}
 
